@@ -305,6 +305,31 @@ fn check_history(report: &Report, rt: &Arc<tokio::runtime::Runtime>, hist: &[H])
         }
         let _ = apply(&mut fx, &mut t, op);
     }
+    // a background job is spawned once and ended at most once, after its spawn
+    {
+        let events = thread_events(&fx, &thread);
+        let mut spawned: std::collections::BTreeMap<String, usize> = std::collections::BTreeMap::new();
+        let mut ended: std::collections::BTreeMap<String, usize> = std::collections::BTreeMap::new();
+        for (i, e) in events.iter().enumerate() {
+            match &e.kind {
+                EventKind::ContinuityJobSpawned { job_id, .. } => {
+                    if spawned.insert(job_id.clone(), i).is_some() {
+                        report.violation("C09:job_spawned_twice", case_json(hist, json!({"job_id": job_id})), "two job_spawned frames carry one job id");
+                    }
+                }
+                EventKind::ContinuityJobEnded { job_id, .. } => {
+                    if !spawned.contains_key(job_id) {
+                        report.violation("C09:job_ended_without_spawn", case_json(hist, json!({"job_id": job_id})), "a job_ended frame precedes (or lacks) its job_spawned frame");
+                    }
+                    if ended.insert(job_id.clone(), i).is_some() {
+                        report.violation("C09:job_ended_twice", case_json(hist, json!({"job_id": job_id})), "a job was ended twice");
+                    }
+                }
+                _ => {}
+            }
+        }
+        report.eval(None::<&u8>);
+    }
     // summaries rendered by auto jobs are a function of the thread up to the cut: two jobs for the
     // same cut point (overlapping or not) render the same text
     {
